@@ -300,6 +300,10 @@ def annotate_loops(item, specs, key):
             if m:
                 header = header[:m.end()] + sp["name"] + ": " + header[m.end():]
         tail = item[br:]
+        if sp.get("after"):
+            # proof steps placed right after the loop (behind its closing brace), located by position
+            be = match_brace(tail, 0)
+            tail = tail[:be] + "\n" + sp["after"] + "\n" + tail[be:]
         if sp.get("body_suffix"):
             # proof steps placed at the very end of the loop body (before its closing brace)
             be = match_brace(tail, 0)
